@@ -171,6 +171,19 @@ CLAIMED["C20"] = dict(
          "the f2py baseline of Fortran rows is skipped; julia/matlab are not installed.",
     design_ref="DESIGN.md §4 C20")
 
+CLAIMED["C02"] = dict(
+    technique="Hypothesis-generated models and configurations; differential between the torch/jax/fortran backends and "
+              "the NumPy backend (and the reference interpreter) on vector fields, argument values, interpolation of "
+              "inputs and trajectories for every declared solver",
+    text="The same generated model is compiled for each backend (vectorize on/off, in-place and returned-array "
+         "convention, float64/float32); vector fields at random states, returned argument values, interp of extrinsic "
+         "inputs at random times and run() trajectories under euler/heun/scipy/diffrax (sampling multiples, inputs) must "
+         "agree with the NumPy backend, arguments matched by frontend name.",
+    note="CPU only; julia/matlab not installed; a model refused by a backend with an exception is counted as rejected; "
+         "float32 compared at 2e-4; Fortran single-precision literals and case-insensitive name clashes are listed "
+         "findings.",
+    design_ref="DESIGN.md §4 C02")
+
 NOT_YET = {}
 
 
